@@ -48,14 +48,31 @@ META = {
             "Further: set length < 65536, non-empty sets, "
             "template ids != 0, a template "
             "record has >= 1 field, enterprise elements have id >= 1, the data set's template is what Cache.lookup returns "
-            "on the cache as updated by the preceding sets. Nothing is partial. The model is tied to ipfix/decoder.go by "
+            "on the cache as updated by the preceding sets. Nothing is partial. The model is tied to ipfix/decoder.go (i) statically: "
+            "every run re-translates the decoder's functions from the Go AST, statement by statement, into a small IR "
+            "(go/cmd/factgen/ipfix_ir.go -> Vflow.Gen.IpfixIR: assignments, if / for / range / break / return, calls, typed "
+            "arithmetic with the wrap-around of the unsigned types; locals numbered, so a renamed local gives the same IR; what is "
+            "not recognised becomes `.unrecognised`, which has no meaning), an interpreter gives the IR Go's semantics on the "
+            "model's state (Vflow.Model.IpfixIR: reader = Rd.step, template cache, locals, panics / unfinished loops = no result) and "
+            "the gen_ir_* theorems prove, for EVERY argument, reader state, cache and exporter, that the interpreted translation IS the "
+            "model's function: gen_ir_getDataLength (= dataLen), gen_ir_minRecordLen (= minRecLen), gen_ir_decodeData (= decodeData: "
+            "both index loops, the order lookup / length / read / Interpret / append, the non-fatal and the fatal error paths), "
+            "gen_ir_fieldSpecUnmarshal (= readSpec, incl. the test > 0x8000 and the mask & 0x7fff), gen_ir_tplHeaderUnmarshal / "
+            "...Opts, gen_ir_setHeaderUnmarshal, gen_ir_tplRecordUnmarshal / ...Opts (= parseTpl / parseOptTpl: the count-down loops, "
+            "the wrapping 16-bit difference FieldCount - ScopeFieldCount), gen_ir_msgHeaderUnmarshal (= readHeader), "
+            "gen_ir_msgHeaderValidate; gen_ir_structs pins the struct declarations the field semantics stand for (decodeSet and Decode: "
+            "C09). The older gen_*_layout / guards_reviewed obligations are kept; (ii) dynamically by "
             "the differential correspondence on generated well-formed and malformed datagram streams plus a "
             "model-independent expected-decode oracle.",
     "ref": "DESIGN.md §6 C03",
-    "note": "Trusted: Lean kernel; hand-written model Vflow.Model.Ipfix / Flow (Go code transcribed) and hand-written RFC "
+    "note": "Trusted: Lean kernel; for the functions covered by gen_ir_* the translator (go/cmd/factgen/ipfix_ir.go) and the IR's Go "
+            "semantics (Vflow.Model.IpfixIR: integers as naturals with explicit wrap-around, pointers as copy-in/copy-out, one reader, "
+            "error = class + non-fatal wrapper, message text not modelled) take the place of 'the model transcribes the Go code'; "
+            "Vflow.Model.Flow (Interpret, element lookup, cache) stays transcribed; hand-written RFC "
             "encoders Vflow.Spec.Wire; lookupElem/interpret are shared by spec and model (their tie to the Go tables is "
             "C20; for the integer types interpret is proved equal to the RFC value, for the other types - floats, booleans, "
             "dates, addresses - it is tied to Interpret by correspondence only); the correspondence harness and its generator bound what the tie sees. Value rendering to JSON is C11.",
-    "technique": "Lean 4 proof by induction over field lists, record lists, template lists and set lists + differential "
+    "technique": "Lean 4 proof by induction over field lists, record lists, template lists and set lists + translation validation "
+                 "(regenerated statement-level IR, interpreter, per-function equality theorems by symbolic execution and one lemma per loop) + differential "
                  "correspondence with ipfix.Decoder.Decode + independent expected-decode oracle",
 }
